@@ -158,16 +158,32 @@ pub fn gen_c06(seed: u64, thorough: bool) {
         let nmcp = order + 1;
         let alpha = if i % 5 == 0 { 0.0 } else { rng.uniform(0.0, 0.6) };
         let rate = *rng.pick(&[8000usize, 16000, 22050, 44100, 48000, 96000]);
-        let t0 = rate as f64 / 20.0;
-        let fperiod = ((t0 as usize) - 1).min(1600);
         let c = random_cepstrum(&mut rng, nmcp, alpha, 2.0);
-        let case = VocCase {
-            nmcp, nlpf: 0, stage: 0, log_gain: false, rate, alpha, beta: 0.0, volume: 1.0, fperiod,
-            frames: vec![(20.0f64.ln(), c, vec![])],
+        // one pulse, observed for one frame of rate/20 - 1 samples (no second pulse at the 20 Hz pitch floor); the
+        // filter does not depend on the rate, so a response that has not died out is observed at 4x, 16x, 64x the rate
+        let mut mult = 1usize;
+        let (case, out) = loop {
+            let r = rate * mult;
+            let fperiod = if mult == 1 { (r / 20 - 1).min(1600) } else { r / 20 - 1 };
+            let case = VocCase {
+                nmcp, nlpf: 0, stage: 0, log_gain: false, rate: r, alpha, beta: 0.0, volume: 1.0, fperiod,
+                frames: vec![(20.0f64.ln(), c.clone(), vec![])],
+            };
+            let out = case.run();
+            let settled = match &out {
+                Ok(w) if w.iter().all(|x| x.is_finite()) => {
+                    let tot: f64 = w.iter().map(|x| x * x).sum();
+                    let tail: f64 = w[w.len() * 7 / 8..].iter().map(|x| x * x).sum();
+                    tail <= 1e-11 * tot
+                }
+                _ => true,
+            };
+            if settled || mult >= 64 { break (case, out); }
+            mult *= 4;
         };
         let mut line = String::from("voc C06");
         case.push(&mut line);
-        push_wave(&mut line, &case.run());
+        push_wave(&mut line, &out);
         push_u(&mut line, *rng.pick(&[33usize, 65, 129, 257]));
         println!("{}", line);
     }
@@ -202,7 +218,28 @@ fn f0_track(rng: &mut Rng, rate: usize, nframes: usize) -> Vec<f64> {
         .collect()
 }
 
+/// inputs kept from earlier runs (`/verif/corpus/C07.txt`: rate fperiod alpha, then log-F0 per frame as bit patterns), run first
+fn c07_corpus() {
+    let path = format!("{}/../corpus/C07.txt", env!("CARGO_MANIFEST_DIR"));
+    let Ok(text) = std::fs::read_to_string(&path) else { return };
+    for l in text.lines().filter(|l| !l.trim().is_empty() && !l.starts_with('#')) {
+        let t: Vec<&str> = l.split_whitespace().collect();
+        let rate: usize = t[0].parse().expect("rate");
+        let fperiod: usize = t[1].parse().expect("fperiod");
+        let alpha: f64 = t[2].parse().expect("alpha");
+        let case = VocCase {
+            nmcp: 3, nlpf: 0, stage: 0, log_gain: false, rate, alpha, beta: 0.0, volume: 1.0, fperiod,
+            frames: t[3..].iter().map(|x| (f64::from_bits(u64::from_str_radix(x, 16).expect("lf0 bits")), vec![0.0; 3], vec![])).collect(),
+        };
+        let mut line = String::from("voc C07");
+        case.push(&mut line);
+        push_wave(&mut line, &case.run());
+        println!("{}", line);
+    }
+}
+
 pub fn gen_c07(seed: u64, thorough: bool) {
+    c07_corpus();
     let mut rng = Rng::new(seed);
     let n = if thorough { 4000 } else { 200 };
     for i in 0..n {
@@ -238,7 +275,55 @@ pub fn gen_c07(seed: u64, thorough: bool) {
 }
 
 // ------------------------------------------------------------------------------------------ C13
+/// one C13 case: the response to a single pulse. The observation window is one frame of `rate/20 - 1`
+/// samples (the pitch floor is 20 Hz, so no second pulse falls inside); the filter does not depend on the
+/// rate, so the window is lengthened (rate x4, up to x64) until the response has died out in it.
+fn c13_case(order: usize, stage: usize, log_gain: bool, rate: usize, alpha: f64, beta: f64, v: &[f64], k: usize) -> String {
+    let mut mult = 1usize;
+    loop {
+        let r = rate * mult;
+        let fperiod = r / 20 - 1;
+        let case = VocCase {
+            nmcp: order + 1, nlpf: 0, stage, log_gain, rate: r, alpha, beta, volume: 1.0, fperiod,
+            frames: vec![(20.0f64.ln(), v.to_vec(), vec![])],
+        };
+        let out = case.run();
+        let settled = match &out {
+            Ok(w) if w.iter().all(|x| x.is_finite()) => {
+                let tot: f64 = w.iter().map(|x| x * x).sum();
+                let tail: f64 = w[w.len() * 7 / 8..].iter().map(|x| x * x).sum();
+                tail <= 1e-12 * tot
+            }
+            _ => true,
+        };
+        if settled || mult >= 64 {
+            let mut line = String::from("voc C13");
+            case.push(&mut line);
+            push_wave(&mut line, &out);
+            push_u(&mut line, k);
+            return line;
+        }
+        mult *= 4;
+    }
+}
+
+/// inputs kept from earlier runs (`/verif/corpus/C13.txt`: order stage log_gain rate alpha beta k v...), run first
+fn c13_corpus() -> Vec<String> {
+    let path = format!("{}/../corpus/C13.txt", env!("CARGO_MANIFEST_DIR"));
+    let Ok(text) = std::fs::read_to_string(&path) else { return vec![] };
+    let mut out = Vec::new();
+    for l in text.lines().filter(|l| !l.trim().is_empty() && !l.starts_with('#')) {
+        let t: Vec<&str> = l.split_whitespace().collect();
+        let u = |i: usize| t[i].parse::<usize>().expect("corpus integer");
+        let f = |i: usize| f64::from_bits(u64::from_str_radix(t[i], 16).expect("corpus float"));
+        let v: Vec<f64> = (7..t.len()).map(f).collect();
+        out.push(c13_case(u(0), u(1), u(2) != 0, u(3), f(4), f(5), &v, u(6)));
+    }
+    out
+}
+
 pub fn gen_c13(seed: u64, thorough: bool) {
+    for l in c13_corpus() { println!("{}", l); }
     let mut rng = Rng::new(seed);
     let n = if thorough { 1500 } else { 80 };
     for i in 0..n {
@@ -247,19 +332,11 @@ pub fn gen_c13(seed: u64, thorough: bool) {
         let alpha = if i % 5 == 0 { 0.0 } else { rng.uniform(0.0, 0.6) };
         let log_gain = rng.chance(0.5);
         let rate = *rng.pick(&[48000usize, 96000]);
-        let fperiod = (rate / 20) - 1;
         let beta = if i % 4 == 3 { rng.uniform(0.05, 0.4) } else { 0.0 };
         let mut v = vec![if log_gain { rng.uniform(-1.0, 1.0) } else { rng.uniform(0.3, 3.0) }];
         v.extend(random_lsp(&mut rng, order));
-        let case = VocCase {
-            nmcp: order + 1, nlpf: 0, stage, log_gain, rate, alpha, beta, volume: 1.0, fperiod,
-            frames: vec![(20.0f64.ln(), v, vec![])],
-        };
-        let mut line = String::from("voc C13");
-        case.push(&mut line);
-        push_wave(&mut line, &case.run());
-        push_u(&mut line, *rng.pick(&[65usize, 129, 257]));
-        println!("{}", line);
+        let k = *rng.pick(&[65usize, 129, 257]);
+        println!("{}", c13_case(order, stage, log_gain, rate, alpha, beta, &v, k));
     }
 }
 
